@@ -545,3 +545,29 @@ def match_finding(c, what):
             elif o[0] == 5 and o[1] in dirty:
                 return "C30-cancelled-delete-is-only-postponed"
     return None
+
+LEVEL_TEXT = (
+    "Machine-checked proof (Coq) over a history-driven Gallina model of Session.flush: for EVERY operation "
+    "history (new objects, scalar assignment, re-parenting through either side of a relationship, many-to-many "
+    "append/remove, delete, flushes anywhere) over ANY set of relationships, the database after a flush is, row "
+    "by row and secondary row by secondary row, the rows of the in-memory graph, and loading those rows gives the "
+    "graph back; by the invariant 'database = rows of the committed view, every difference of the current view is "
+    "recorded as history', proved preserved by every operation and re-established by flush. Tied to the code by a "
+    "source pin and by comparing the real tables after every flush and the graph loaded by a new session."
+)
+LEVEL_NOTE = (
+    "partial. The attribute/backref event layer is abstracted to 'the parent of c along r' (C36-C38 cover it); the "
+    "operations have preconditions (Flush.v step): delete only when all references to the object are flushed and "
+    "come through relationships with a collection side and the object was not re-parented since the last flush; "
+    "re-parenting only when no cycle arises among current and flushed links (otherwise CircularDependencyError: "
+    "C31). Not covered: primary key changes (_DetectKeySwitch, natural keys), joined/single inheritance, composite "
+    "attributes, association objects as such (they are ordinary classes with two foreign keys here), expunge, merge, "
+    "delete/delete-orphan cascades (oracle-only family; the known pending-orphan finding lives there), rollback and "
+    "savepoints inside a history, PostgreSQL/MariaDB. Trusted: Coq kernel, the hand transcription (pin + "
+    "correspondence after every flush), SQLite. No axioms."
+)
+TECHNIQUE = (
+    "Coq proof by induction over operation histories (invariant preserved by each operation, re-established by "
+    "flush); source pin; differential execution of real Sessions on SQLite after every flush plus reload in a fresh "
+    "session; direct graph-vs-database oracle"
+)
